@@ -127,6 +127,7 @@ def run(tier, seed, out, drv, facts):
     pep604_cases(out)
     union_history_cases(out, drv, facts, rng)
     bare_pytree_cases(out)
+    zero_size_leaf_cases(out)
     leaf_type_matrix_cases(out)
     after_fault_cases(out)
 
@@ -368,6 +369,36 @@ def leaf_type_matrix_cases(out):
                 break
 
 
+def zero_size_leaf_cases(out):
+    """array leaves with axes of extent 0: a name bound to 0 is bound — every later leaf must agree with it, in dict-key
+    order, list order, nested, with a second axis, and when the 0 was bound before the tree was looked at"""
+    from impl import Duck
+    from jaxtyping import Float, PyTree, jaxtyped
+
+    def a(*shape):
+        return Duck(tuple(shape), "float32")
+
+    N, ND = PyTree[Float[Duck, "n"]], PyTree[Float[Duck, "n d"]]
+    cases = [
+        ("n: (0,), (3,)", N, None, {"a": a(0), "b": [a(3)]}, "F"), ("n: (3,), (0,)", N, None, [a(3), a(0)], "F"), ("n: (0,), (0,)", N, None, (a(0), {"k": a(0)}), "T"),
+        ("n d: (0,2), (0,2), (5,2)", ND, None, (a(0, 2), [a(0, 2), (a(5, 2), None)]), "F"), ("n d: (0,2), (0,2)", ND, None, (a(0, 2), [a(0, 2)]), "T"),
+        ("n d: (2,0), (2,3)", ND, None, [a(2, 0), a(2, 3)], "F"), ("n=0 bound before; (2,), (2,)", N, a(0), [a(2), a(2)], "F"), ("n=0 bound before; (0,)", N, a(0), [a(0)], "T"),
+    ]
+    for name, ann, before, tree, want in cases:
+        try:
+            with jaxtyped("context"):
+                if before is not None:
+                    isinstance(before, Float[Duck, "n"])
+                got = impl.check_once(tree, ann)
+                after = impl.canon_bindings(impl.bindings())["single"]
+        finally:
+            impl_prog.residual_state(reset=True)
+        out.case(("zero-size-leaf", name), True, sample={"case": name, "verdict": got, "bindings_after": after})
+        if got != want:
+            out.violation(f"zero-size-leaf:{want}->{got}", f"leaves {name}: isinstance(tree, PyTree[Float[...]]) answers {got}, every leaf must match with ONE value of n "
+                          f"(0 is a value), so the answer is {want}; bindings afterwards {after}", {"zero_size_leaf": name})
+
+
 def bare_pytree_cases(out):
     """bare `PyTree` accepts EVERYTHING, also values jax.tree_util cannot flatten (dictionaries whose keys do not compare,
     registered nodes whose flatten function raises) — it never looks inside"""
@@ -526,6 +557,9 @@ def replay(rep, out, drv, facts):
         return
     if "pep604" in rep:
         pep604_cases(out)
+        return
+    if "zero_size_leaf" in rep:
+        zero_size_leaf_cases(out)
         return
     if "leaf_matrix" in rep:
         leaf_type_matrix_cases(out)
